@@ -163,7 +163,7 @@ func (s *Scope) Invoke(function interface{}, opts ...InvokeOption) (err error) {
 
 	}
 
-	verifTraceEnter(s, "inv", s)
+	verifTraceEnter(s, "inv", s, pl, args)
 	returned := s.invokerFn(reflect.ValueOf(function), args)
 	if len(returned) == 0 {
 		return nil
